@@ -201,7 +201,13 @@ def run(ctx):
         return {k: (a.get(k), b.get(k)) for k in sorted(set(a) | set(b)) if k not in skip and a.get(k) != b.get(k)}
 
     # ------------------------------------------------------------ (a) caching contract
-    for ci in range(ctx.n(500, 6000)):
+    # directed: a request WITHOUT a document (empty body), every access history of length <= 3 (quick; <= 4 thorough), every kind of
+    # default (None and the falsy ones included), both stacks - sharded
+    import itertools as _it
+    FORCED = [(st_, sq, dv) for st_ in ('wsgi', 'asgi') for n_ in range(1, 4 if ctx.quick else 5) for sq in _it.product('mdp', repeat=n_)
+              for dv in ('obj', None, {}, [], 0, '', False) if 'd' in sq]
+    FORCED = [f for j, f in enumerate(FORCED) if j % ctx.shard[1] == ctx.shard[0]] if not ctx.searching else []
+    for ci in range(len(FORCED) + ctx.n(500, 6000)):
         stack = rnd.choice(['wsgi', 'asgi'])
         kind = rnd.choice(['json', 'json', 'json', 'json', 'boom', 'http'])
         k_ = rnd.random()
@@ -214,6 +220,18 @@ def run(ctx):
             ctx.count('a_body_' + ikind)
         if rnd.random() < 0.1 and body: body = body[:rnd.randrange(len(body))]
         seq = [rnd.choice(['m', 'd', 'p']) for _ in range(rnd.randint(1, 5))]
+        # the default the application passes: any object, the falsy ones and None included (for bodies without a document, where the
+        # default is what comes back, so that it cannot be mistaken for a parsed value)
+        if not body.strip() and rnd.random() < 0.7:
+            DEF = rnd.choice([None, None, {}, [], 0, '', False, ()])
+            ctx.count('a_default_when_empty_' + repr(DEF))
+        else:
+            DEF = object()
+        if ci < len(FORCED):
+            stack, seq_, dv_ = FORCED[ci]
+            kind, body, seq = 'json', b'', list(seq_)
+            DEF = object() if isinstance(dv_, str) and dv_ == 'obj' else __import__('copy').copy(dv_)
+            ctx.count('a_directed_empty_body_histories')
         # where an access is made is part of the history: 30% of them happen while the application is handling another (unrelated) exception
         nested = [rnd.random() < 0.3 for _ in seq]
         ctype = rnd.choice(['application/json', 'application/json', 'application/json; charset=utf-8', 'application/json;v=1', 'application/json ; charset="utf-8"'])
